@@ -534,7 +534,7 @@ def select_histories(ctx, rng, cd, exe, dicts):
 # (harness/c08_unit.c includes zstd_compress.c / zstd_compress_sequences.c); the model side is evaluated by coqc (vm_compute).
 def reuse_histories(ctx, variants=("o1", "asan")):
     q = ctx.quick
-    plan = [p for p in (("o1", 960 if q else 90000, 30 if q else 500), ("asan", 320 if q else 24000, 20 if q else 300)) if p[0] in variants]
+    plan = [p for p in (("o1", 960 if q else 60000, 30 if q else 500), ("asan", 320 if q else 15000, 20 if q else 300)) if p[0] in variants]
     total = 0
     for variant, n, chunk in plan:
         exe = core.build_harness("c08_hist", ["c08_hist.c"], variant=variant, extra_flags=["-w"])
@@ -578,7 +578,7 @@ def reuse_histories_R(ctx, cd):
     a dictionary may only be reached while the window still touches it)"""
     exe = core.build_harness("c08_hist", ["c08_hist.c"], variant="o1", extra_flags=["-w"])
     first = ctx.seed * 10000000 + 9000000
-    lines = ["P p%d %d" % (k, first + k) for k in range(16 if ctx.quick else 2500)]
+    lines = ["P p%d %d" % (k, first + k) for k in range(16 if ctx.quick else 700)]
     out, errs = codec._run_chunks(exe, lines, core.NCPU, 2400)
     cases, want, stricter = [], {}, 0
     for l in lines:
@@ -591,7 +591,7 @@ def reuse_histories_R(ctx, cd):
             _, kind, di, fh, xh = fr.split(":")
             kind, di = int(kind), int(di)
             d = ds[di] if kind else None
-            if (kind and not d) or (ctx.quick and (len(xh) > 24000 or (d and len(d) > 12000))):
+            if (kind and not d) or (ctx.quick and (len(xh) > 24000 or (d and len(d) > 12000))) or (d and len(d) > 30000):
                 continue
             cid = "%s_%d" % (i, j)
             cases.append((cid, "rawdict" if kind == 1 else "", d, bytes.fromhex(fh)))
